@@ -1,17 +1,196 @@
-"""Per-property manifest texts (what is decided, what is trusted)."""
+"""Per-property manifest texts: what is decided, what is trusted, which method decides."""
+
+_TB = ('Trusted: CPython ast / re._parser (syntax only), the parsolint engines (checked by the must-fire / '
+       'must-stay-silent variant matrix of the thorough tier), the call-resolution policy of DESIGN.md section 1 '
+       '(untyped receivers resolve to every parso class defining the method unless it is a builtin container/str '
+       'method), absence of reflection in parso/. ')
 
 META = {
+    'C01': {
+        'level': 'Decides the text-conservation discipline on every control-flow path: every token construction takes a '
+                 'prefix accumulator (TOK-1), zero-width tokens are empty (TOK-2), the tokenizer cannot leave before the '
+                 'ENDMARKER epilogue (TOK-5), every token is consumed exactly once by _add_token / error_recovery with its '
+                 'fields reaching the leaf attributes they belong to (PAR-1), reductions keep all children (PAR-0), '
+                 '_stack_removal deletes exactly what it gathered (PAR-7), convert_node drops exactly the INDENT/DEDENT that '
+                 'every grammar puts at suite[1] / suite[-1] (PAR-8, GR-6), get_code is prefix+value joined in order '
+                 '(TREE-0), split_lines only merges neighbours (RX-3/4). Does not decide the equality get_code()==input '
+                 '(regex / position arithmetic is value reasoning).',
+        'note': _TB + 'Anchors are roles (dataflow into the 4th field of PythonToken), not variable names.',
+        'technique': 'CFG must-pass-through / consume-exactly-once path rules with truthiness facts + grammar shape check',
+    },
+    'C02': {
+        'level': 'Decides structural necessary conditions of totality: grammar-table lookups are KeyError-guarded (PAR-2), '
+                 'every token is consumed on every path (PAR-1), the file-level stack entry can never be removed (PAR-9), '
+                 'nodes only from accepting states (PAR-3), no local is read unbound on a feasible path in tokenizer / '
+                 'parser / tree modules (DA, path-sensitive), the scan loop cannot loop without assigning the position and '
+                 'the fallback advances by a positive constant (TOK-6), no early exit before the epilogue (TOK-5), the 9 '
+                 'grammars cannot make the generator raise (GR-1..3). Does not decide absence of every implicit exception.',
+        'note': _TB + 'Five reasoned DA suppressions (named symbol + reason) in rules/dar.py.',
+        'technique': 'path-sensitive definite-assignment + CFG path rules + LL(1) grammar analysis',
+    },
+    'C03': {
+        'level': 'Decides the clause "one definition of line break wherever positions are computed": split_lines breaks '
+                 'exactly at \\n, \\r\\n, \\r over all strings (regular-language equality against the str.splitlines '
+                 'separator set, RX-3/4), no Unicode-whitespace str API is applied to source text outside reasoned sites '
+                 '(RX-11), token kinds whose value language contains a line break never map to the single-line end_pos '
+                 'leaf classes (TREE-8, language emptiness). Positions themselves are numeric and not decided.',
+        'note': _TB + 'Reference set of splitlines separators is computed from the interpreter (CPython behaviour, not parso).',
+        'technique': 'regular-language equality / emptiness over re syntax trees + API-ban lint with reasoned sites',
+    },
+    'C04': {
+        'level': 'Decides the two clauses that are literally in the statement and visible in code shape: every memo slot of a '
+                 'tree class (lazily filled under an is-None test; found by analysis, today Module._used_names) is reset by '
+                 'DiffParser.update before anything else happens, update returns the module only after _nodes_tree.close() '
+                 '(TREE-6, dominators), and every children-list write in diff.py sets the parents of what it places (TREE-1). '
+                 'The equivalence with a fresh parse over edit histories is value/heuristic driven and not decided.',
+        'note': _TB,
+        'technique': 'dominator analysis on the CFG of DiffParser.update + parent/children pairing rule',
+    },
+    'C05': {
+        'level': 'Decides who creates nodes and from which states: reductions only behind is_final (PAR-3), node / error node / '
+                 'error leaf / Param / leaf classes are constructed only in their sanctioned functions (PAR-4, resolved '
+                 'constructor calls incl. node_map / leaf_map tables), parser state is forced only by the two enumerated '
+                 'recovery shortcuts under their guards (PAR-5), node_map keys are rule names and the classes report that '
+                 'type (GR-7), INDENT/DEDENT only in suite at [1]/[-1] (GR-6, PAR-8). Does not decide that the children of a '
+                 'node are a sentence of its rule.',
+        'note': _TB,
+        'technique': 'who-may-construct / dominance rules on resolved call sites + grammar-table agreement',
+    },
     'C06': {
-        'level': 'Decides, for all sentences, the grammar-side necessary and sufficient condition under which a '
-                 'greedy table-driven LL(1) engine loses no sentence: each of the 9 grammar files is checked by an '
-                 'independent EBNF reader for left recursion, nullable rules, FIRST/FIRST conflicts in every DFA '
-                 'state and FIRST/FOLLOW conflicts at every accepting state with out-arcs (the condition parso\'s own '
-                 'generator does not test), and every quoted terminal is shown to be one NAME/OP token of the '
-                 'version\'s tokenizer (ordered-choice regex semantics). Does not decide that the returned tree '
-                 'equals the derivation.',
-        'note': 'Trusted: the own grammar reader/DFA construction (cross-checked against the generator by C08 rules), '
-                're._parser syntax trees, the constant folder that recovers the tokenizer regexes. Assumes generator.py '
-                'builds the tables the text describes.',
-        'technique': 'LL(1) FIRST/FOLLOW conflict analysis of the grammar files + regex ordered-choice matching of terminals',
+        'level': 'Decides, for all sentences, the grammar-side condition under which a greedy table-driven LL(1) engine loses '
+                 'no sentence: each of the 9 grammar files is checked by an independent EBNF reader for left recursion, '
+                 'nullable rules, FIRST/FIRST conflicts in every DFA state and FIRST/FOLLOW conflicts at every accepting '
+                 'state with out-arcs (which parso\'s own generator does not test); every quoted terminal is one NAME/OP token '
+                 'of that version\'s tokenizer under ordered-choice regex semantics (GR-5). Does not decide that the returned '
+                 'tree equals the derivation.',
+        'note': _TB + 'Assumes generator.py builds the tables the text describes (structural part: C08).',
+        'technique': 'LL(1) FIRST/FOLLOW conflict analysis of the grammar files + ordered-choice regex matching of terminals',
+    },
+    'C07': {
+        'level': 'Decides mode non-interference up to the first error: the recovery flag is read at exactly three sites, '
+                 'recovery-only state is touched only behind the flag, the strict exit is guarded by it, the token filter is '
+                 'installed only in recovery mode and forwards every token while no indent was discarded, strict mode builds '
+                 'its error leaf from the offending token (PAR-6). Equality of the result trees as values is not decided.',
+        'note': _TB,
+        'technique': 'read-site inventory + edge-dominance on CFGs of the parser',
+    },
+    'C08': {
+        'level': 'Decides the rejection paths of the generator: a table store is reachable only through a failed membership '
+                 'test whose success raises (GEN-1), the left-recursion sentinel dominates recursion and finding it raises '
+                 '(GEN-2), DFA state equality compares finality, arc count and arc identity before any `return True` and '
+                 'states are merged only when equal (GEN-3); plus the independent verdict that all shipped grammars are LL(1) '
+                 '(GR-1..4). Faithfulness of NFA/DFA construction as an input/output relation is not decided.',
+        'note': _TB,
+        'technique': 'dominator / must-raise path rules on generator.py + independent LL(1) analysis',
+    },
+    'C09': {
+        'level': 'Decides prefix purity and splitter totality as a regular-language statement over all strings: only the '
+                 'tokenizer\'s own lexical classes flow into a token prefix (RX-2, interprocedural dataflow into the prefix '
+                 'field), and the language they generate is included in the language prefix.split_prefix tiles, every '
+                 'recognised part having a type (RX-1, automata inclusion with shortest witness); whitespace classes agree '
+                 '(RX-9); INDENT/DEDENT pushes and pops are paired with their tokens (TOK-4); exactly one ENDMARKER, last '
+                 '(TOK-5); scan-loop progress (TOK-6). True positions are not decided.',
+        'note': _TB + 'Regexes are recovered by constant-folding tokenize.py / prefix.py, never by importing them.',
+        'technique': 'dataflow into token fields + regular-language inclusion (epsilon-NFA product, shortest witness)',
+    },
+    'C10': {
+        'level': 'Decides agreement of the lexical tables with the reference sources Lib/tokenize.py / Lib/token.py of every '
+                 'interpreter 3.6-3.13 in the sandbox (read with ast, never run): Number / Whitespace / Comment are '
+                 'language-equivalent (RX-7), every reference operator is one maximal token of parso\'s tokenizer for that '
+                 'version, parso-only operators are a reasoned list, string prefixes coincide (RX-8). Token-stream equality on '
+                 'all valid programs (layout logic) is not decided.',
+        'note': _TB + 'Reference: pyenv interpreter sources; 3.14 has no reference in the sandbox.',
+        'technique': 'regular-language equivalence against constant-folded CPython reference tables',
+    },
+    'C11': {
+        'level': 'Decides parent/child ownership and identity-based navigation: every statement that places elements into a '
+                 'children list sets their parent in the same function or obtains them from _create_params(owner, ...) '
+                 '(TREE-1), no tree class has an __eq__ that can hold between distinct nodes, sibling navigation uses `is`, '
+                 'leaf stepping moves one sibling and descends (TREE-2). Position lookup (binary search) is not decided.',
+        'note': _TB,
+        'technique': 'pairing rule over all children-list writes + equality-definition audit over the class hierarchy',
+    },
+    'C12': {
+        'level': 'Decides three structural necessary conditions: value-keyed rule dispatch is leaf-category safe (NORM-8: with '
+                 'the token-value model built from the folded tokenizer regexes and the grammars, a registered spelling can '
+                 'only reach a rule through keyword/operator leaves or the rule narrows first), text comparisons in errors.py '
+                 'are category safe (TC-1), no grammar version is a local outlier between its neighbours (GR-11, product of '
+                 'rule DFAs with witness), every terminal is producible and the := gate matches the grammars (GR-5). The '
+                 'logic of the semantic rules is not decided.',
+        'note': _TB + 'Assumes CPython\'s syntax is convex over 3.6-3.14 at production level (stated in evidence).',
+        'technique': 'leaf-category (type-confusion) analysis over regex value languages + cross-version grammar inclusion',
+    },
+    'C13': {
+        'level': 'Decides: no unbound local (DA) and no mis-bound call / issue argument kinds (SIG, SIG-K) on any path of the '
+                 'error finder; every error leaf reaches an issue-adding call and error nodes are reported (NORM-1/2); every '
+                 'registered rule pairs 901/"SyntaxError: " or 903/"IndentationError: " (NORM-3); first issue per line, one '
+                 'Issue per kept entry (NORM-4); no tree attribute store and no set iteration reachable from the walk '
+                 '(EFF-2/4). Implicit exceptions depending on tree invariants and position ranges are not decided.',
+        'note': _TB,
+        'technique': 'definite assignment + call conformance + CFG path rules + effect analysis on the call graph',
+    },
+    'C14': {
+        'level': 'Decides exhaustiveness of the helper tables w.r.t. every shipped grammar: the container tables equal the '
+                 'container node types computed from the grammars (GR-8a), every rule with a binding operator is a definition '
+                 'type, delegated or special-cased (GR-8b), text comparisons in the helpers are leaf-category safe (TC-1), no '
+                 'unbound local in python/tree.py (DA). Agreement with CPython\'s ast over all programs is not decided.',
+        'note': _TB + 'Three listed known findings (inline := in argument / dictorsetmaker / subscript).',
+        'technique': 'grammar reachability with tree-shape conventions vs. helper tables + leaf-category analysis',
+    },
+    'C15': {
+        'level': 'Decides over all strings: split_lines breaks exactly at \\n, \\r\\n, \\r and its keepends branch is '
+                 'conservative (RX-3/4); the text in which parso finds a PEP 263 declaration equals the text in which CPython\'s '
+                 'cookie_re / blank-line rule finds one (RX-5, inclusion both ways, reference pattern folded from '
+                 'Lib/tokenize.py), an unterminated last line is seen (RX-6), BOM test first. Codec behaviour is not decided.',
+        'note': _TB,
+        'technique': 'regular-language inclusion / equality (bytes alphabet) against the folded CPython cookie pattern',
+    },
+    'C16': {
+        'level': 'Decides keying, freshness direction and sampling order over all histories: every parser_cache access is keyed '
+                 '(grammar hash, path) by interprocedural role inference (CACHE-1), the pickle path depends on cache dir, '
+                 'version tag, grammar hash and path hash (CACHE-4), identical grammar text implies identical version '
+                 'predicates (GR-9), cached nodes are returned only under mtime <= entry time (CACHE-2), the stored time must '
+                 'be sampled before the read (CACHE-3; two listed known findings). Equality with a fresh parse is not decided.',
+        'note': _TB,
+        'technique': 'role (provenance) dataflow across cache.py/grammar.py + edge-dominance of freshness tests',
+    },
+    'C17': {
+        'level': 'Decides, for every crash point and file content, that no exception of the file system or of unpickling '
+                 'raised inside load_module / try_to_save_module and the clean-up they trigger can escape to Grammar.parse '
+                 '(EXC-1: handler coverage + interprocedural propagation with a frozen may-raise table), and that writer and '
+                 'reader use the same path expression and the writer truncates (CACHE-4). "Returns the tree of the current '
+                 'content" and the atime-based in-use clause are not decided.',
+        'note': _TB + 'May-raise table for ~12 stdlib calls (pickle.load: any Exception, as documented).',
+        'technique': 'exception-escape analysis (handler coverage over the builtin exception hierarchy, call-graph propagation)',
+    },
+    'C18': {
+        'level': 'Decides, sound modulo reflection, that from the non-caching parse / tokenize / issue-listing entry points the '
+                 'only reachable writes to shared objects (module globals, class-level containers, grammar/table/config '
+                 'instances, values obtained from them, mutable defaults) are two reasoned write-once memos (EFF-1), no '
+                 'process-global effect call is reachable (EFF-3; one listed known finding: warnings.catch_warnings), no set '
+                 'iteration (EFF-4), parser/normalizer/rule instances are per call (EFF-5). Absence of shared writes implies '
+                 'every interleaving yields the sequential result.',
+        'note': _TB,
+        'technique': 'effect analysis: shared-object inventory + alias tracking + reachability on the resolved call graph',
+    },
+    'C19': {
+        'level': 'Decides: for every tree class the parser can instantiate, the argument list dump() prints binds to the '
+                 'MRO-resolved __init__ with the right roles and the name is public in parso.python.tree (TREE-3); every '
+                 'assigned instance attribute is a slot or the class has a __dict__, no pickling hooks (TREE-4); parameter '
+                 'grouping is idempotent (TREE-7); constructors set parents (TREE-1); RefactoringNormalizer reads no attribute '
+                 'only Normalizer.__init__ sets and returns mapped text or prefix+value (TREE-5, TREE-0). Equality of the '
+                 'round-tripped tree as a value is not decided.',
+        'note': _TB,
+        'technique': 'signature binding of dump categories against resolved constructors + slot audit',
+    },
+    'C20': {
+        'level': 'Decides: no unbound local, mis-bound call or mis-kinded issue argument in pep8.py (DA, SIG, SIG-K); every pop '
+                 'of the indentation stack is guarded by the top node type, mirrored in the suite context manager, or the '
+                 'else-half of a push/pop pair, and text-based bracket recognition is leaf-category safe (NORM-6); the prefix '
+                 'splitter cannot fail on any tokenizer prefix (RX-1/2: the walk splits every prefix); issues are appended only '
+                 'under the (code,start) de-duplication (NORM-5); no tree writes / set iteration (EFF-2/4); 292 treats \\n and '
+                 '\\r alike. Positions and equality across fresh/incremental/cached trees are not decided.',
+        'note': _TB,
+        'technique': 'definite assignment + call conformance + stack-discipline typestate rule + regular-language inclusion',
     },
 }
